@@ -7,6 +7,8 @@
  *   - `crash K`  : raise(SIGKILL) when K system calls of the op have completed (at the entry of the
  *                  next one, or when the op returns);  `crashA K`: right after the K-th returns,
  *   - `eintr …`  : return -1/EINTR n_i times before the i-th real call (sem_open, sem_wait, shm_open),
+ *   - `fail K:ERR,…` : the K-th system call of the op is not made and returns -1 / errno = ERR (a scripted failure of the environment),
+ *   - `W null`   : every public call with a NULL handle / name in worker W,
  *   - `par …`    : gated mode, the server decides which worker makes its next system call.
  * `obs` prints, for every name: the semaphore value (API only: an observer process drains it through
  * a fresh OPEN handle and posts the units back; PVIPC_GETVALUE=1 also cross-checks sem_getvalue),
@@ -122,6 +124,8 @@ static int crash_at = -1;      /* crash K: die when ncalls == K at the next entr
 static int crash_after = -1;   /* crashA K: die right after the K-th real call */
 static int gated;
 static int eintr_script[32], eintr_n;
+static int fail_idx[8], fail_err[8], fail_n;   /* fail K:ERR,…: the K-th system call of the op (failed ones included) is not made and returns -1 / errno = ERR */
+static int inj_errno;
 static int resp_fd = -1, cmd_fd = -1;
 
 static int wr_all (int fd, const char *s, size_t n) {
@@ -144,14 +148,29 @@ static const char *ename (int e) {
 	switch (e) {
 	case EINTR: return "EINTR"; case EEXIST: return "EEXIST"; case ENOENT: return "ENOENT";
 	case EINVAL: return "EINVAL"; case EBADF: return "EBADF";
+	case ENOMEM: return "ENOMEM"; case EACCES: return "EACCES"; case EMFILE: return "EMFILE";
 	default: snprintf (b, sizeof b, "E%d", e); return b;
 	}
 }
 
-/* entry of a wrapped call: returns 1 when an EINTR has to be injected instead of the real call */
+static int errno_of (const char *n) {
+	static const struct { const char *n; int e; } tab[] = { {"EINTR", EINTR}, {"EEXIST", EEXIST}, {"ENOENT", ENOENT}, {"EINVAL", EINVAL},
+		{"EBADF", EBADF}, {"ENOMEM", ENOMEM}, {"EACCES", EACCES}, {"EMFILE", EMFILE} };
+	for (size_t i = 0; i < sizeof tab / sizeof tab[0]; ++i) if (!strcmp (n, tab[i].n)) return tab[i].e;
+	return 0;
+}
+
+/* entry of a wrapped call: returns 1 when an EINTR has to be injected instead of the real call, 2 when the call
+ * has to fail with inj_errno (scripted failure: the real call is not made) */
 static int pre (int interruptible, const char *desc) {
 	if (!armed) return 0;
 	if (crash_at >= 0 && ncalls == crash_at) raise (SIGKILL);
+	for (int i = 0; i < fail_n; ++i) if (fail_idx[i] == ncalls) {
+		inj_errno = fail_err[i];
+		++ncalls;
+		emit ("T %s=%s\n", desc, ename (inj_errno));
+		return 2;
+	}
 	if (interruptible && ncalls < eintr_n && eintr_script[ncalls] > 0) {
 		eintr_script[ncalls]--;
 		emit ("T %s=EINTR\n", desc);
@@ -182,7 +201,8 @@ sem_t *__wrap_sem_open (const char *name, int oflag, ...) {
 	if (!armed) return __real_sem_open (name, oflag, mode, v);
 	char d[128], sb[16];
 	snprintf (d, sizeof d, "sem_open(%s)/%d/%d/%u", sym_of_key (name, sb), oflag, (int) mode, v);
-	if (pre (1, d)) { errno = EINTR; return SEM_FAILED; }
+	int a = pre (1, d);
+	if (a) { errno = a == 1 ? EINTR : inj_errno; return SEM_FAILED; }
 	sem_t *r = __real_sem_open (name, oflag, mode, v);
 	int e = errno;
 	post (d, r == SEM_FAILED, e, 0, 0);
@@ -190,7 +210,7 @@ sem_t *__wrap_sem_open (const char *name, int oflag, ...) {
 }
 int __wrap_sem_close (sem_t *s) {
 	if (!armed) return __real_sem_close (s);
-	pre (0, "sem_close");
+	if (pre (0, "sem_close")) { errno = inj_errno; return -1; }
 	int r = __real_sem_close (s), e = errno;
 	post ("sem_close", r != 0, e, 0, 0);
 	return r;
@@ -199,21 +219,22 @@ int __wrap_sem_unlink (const char *name) {
 	if (!armed) return __real_sem_unlink (name);
 	char d[64], sb[16];
 	snprintf (d, sizeof d, "sem_unlink(%s)", sym_of_key (name, sb));
-	pre (0, d);
+	if (pre (0, d)) { errno = inj_errno; return -1; }
 	int r = __real_sem_unlink (name), e = errno;
 	post (d, r != 0, e, 0, 0);
 	return r;
 }
 int __wrap_sem_wait (sem_t *s) {
 	if (!armed) return __real_sem_wait (s);
-	if (pre (1, "sem_wait")) { errno = EINTR; return -1; }
+	int a = pre (1, "sem_wait");
+	if (a) { errno = a == 1 ? EINTR : inj_errno; return -1; }
 	int r = __real_sem_wait (s), e = errno;
 	post ("sem_wait", r != 0, e, 0, 0);
 	return r;
 }
 int __wrap_sem_post (sem_t *s) {
 	if (!armed) return __real_sem_post (s);
-	pre (0, "sem_post");
+	if (pre (0, "sem_post")) { errno = inj_errno; return -1; }
 	int r = __real_sem_post (s), e = errno;
 	post ("sem_post", r != 0, e, 0, 0);
 	return r;
@@ -222,7 +243,8 @@ int __wrap_shm_open (const char *name, int oflag, mode_t mode) {
 	if (!armed) return __real_shm_open (name, oflag, mode);
 	char d[128], sb[16];
 	snprintf (d, sizeof d, "shm_open(%s)/%d/%d", sym_of_key (name, sb), oflag, (int) mode);
-	if (pre (1, d)) { errno = EINTR; return -1; }
+	int a = pre (1, d);
+	if (a) { errno = a == 1 ? EINTR : inj_errno; return -1; }
 	int r = __real_shm_open (name, oflag, mode), e = errno;
 	post (d, r < 0, e, 0, 0);
 	return r;
@@ -231,7 +253,7 @@ int __wrap_shm_unlink (const char *name) {
 	if (!armed) return __real_shm_unlink (name);
 	char d[64], sb[16];
 	snprintf (d, sizeof d, "shm_unlink(%s)", sym_of_key (name, sb));
-	pre (0, d);
+	if (pre (0, d)) { errno = inj_errno; return -1; }
 	int r = __real_shm_unlink (name), e = errno;
 	post (d, r != 0, e, 0, 0);
 	return r;
@@ -239,7 +261,7 @@ int __wrap_shm_unlink (const char *name) {
 int __wrap_ftruncate (int fd, off_t len) {
 	if (!armed) return __real_ftruncate (fd, len);
 	char d[64]; snprintf (d, sizeof d, "ftruncate/%lld", (long long) len);
-	pre (0, d);
+	if (pre (0, d)) { errno = inj_errno; return -1; }
 	int r = __real_ftruncate (fd, len), e = errno;
 	post (d, r != 0, e, 0, 0);
 	return r;
@@ -247,7 +269,7 @@ int __wrap_ftruncate (int fd, off_t len) {
 void *__wrap_mmap (void *a, size_t len, int prot, int flags, int fd, off_t off) {
 	if (!armed) return __real_mmap (a, len, prot, flags, fd, off);
 	char d[96]; snprintf (d, sizeof d, "mmap/%zu/%d/%d", len, prot, flags);
-	pre (0, d);
+	if (pre (0, d)) { errno = inj_errno; return MAP_FAILED; }
 	void *r = __real_mmap (a, len, prot, flags, fd, off);
 	int e = errno;
 	post (d, r == MAP_FAILED, e, 0, 0);
@@ -256,21 +278,21 @@ void *__wrap_mmap (void *a, size_t len, int prot, int flags, int fd, off_t off) 
 int __wrap_munmap (void *a, size_t len) {
 	if (!armed) return __real_munmap (a, len);
 	char d[64]; snprintf (d, sizeof d, "munmap/%zu", len);
-	pre (0, d);
+	if (pre (0, d)) { errno = inj_errno; return -1; }
 	int r = __real_munmap (a, len), e = errno;
 	post (d, r != 0, e, 0, 0);
 	return r;
 }
 int __wrap_close (int fd) {
 	if (!armed) return __real_close (fd);
-	pre (0, "close");
+	if (pre (0, "close")) { errno = inj_errno; return -1; }
 	int r = __real_close (fd), e = errno;
 	post ("close", r != 0, e, 0, 0);
 	return r;
 }
 int __wrap_fstat (int fd, struct stat *st) {
 	if (!armed) return __real_fstat (fd, st);
-	pre (0, "fstat");
+	if (pre (0, "fstat")) { errno = inj_errno; return -1; }
 	int r = __real_fstat (fd, st), e = errno;
 	post ("fstat", r != 0, e, r == 0 ? (long) st->st_size : 0, 1);
 	return r;
@@ -420,21 +442,53 @@ static void drain (const char *name) {
 	emit ("R %d\n", n);
 }
 
+/* every public call with a NULL handle / name (and a negative initial value): no system call, nothing changes */
+static void null_guards (void) {
+	char out[LINE], r[64]; size_t o = 0; PError *err;
+#define GUARD(expr_ok, call) do { err = NULL; armed = 1; int ok_ = (call); armed = 0; \
+		if (ok_ && (expr_ok)) snprintf (r, sizeof r, "ok"); else fail_str (r, sizeof r, err); \
+		o += (size_t) snprintf (out + o, sizeof out - o, "%s%s", o ? " ; " : "", r); } while (0)
+	GUARD (1, p_semaphore_new (NULL, 1, P_SEM_ACCESS_CREATE, &err) != NULL);
+	GUARD (1, p_semaphore_new (sem_name[0], -1, P_SEM_ACCESS_CREATE, &err) != NULL);
+	GUARD (1, (p_semaphore_take_ownership (NULL), 1));
+	GUARD (1, p_semaphore_acquire (NULL, &err));
+	GUARD (1, p_semaphore_release (NULL, &err));
+	GUARD (1, (p_semaphore_free (NULL), 1));
+	GUARD (1, p_shm_new (NULL, 100, P_SHM_ACCESS_READWRITE, &err) != NULL);
+	GUARD (1, (p_shm_take_ownership (NULL), 1));
+	GUARD (1, (p_shm_free (NULL), 1));
+	GUARD (1, p_shm_lock (NULL, &err));
+	GUARD (1, p_shm_unlock (NULL, &err));
+#undef GUARD
+	o += (size_t) snprintf (out + o, sizeof out - o, " ; %s ; %zu", p_shm_get_address (NULL) ? "non-null" : "null", (size_t) p_shm_get_size (NULL));
+	if (ncalls) o += (size_t) snprintf (out + o, sizeof out - o, " ; SYSTEM-CALLS=%d", ncalls);
+	emit ("R %s\n", out);
+}
+
 static void worker_loop (void) {
 	char line[LINE], res[256], *t[16];
 	while (read_line (cmd_fd, line, sizeof line) >= 0) {
 		int n = split (line, t, 16);
 		if (n == 0) continue;
-		crash_at = crash_after = -1; gated = 0; eintr_n = 0; ncalls = 0;
+		crash_at = crash_after = -1; gated = 0; eintr_n = 0; ncalls = 0; fail_n = 0;
 		char **op = t; int on = n;
 		if (!strcmp (t[0], "views")) { views (); continue; }
 		if (!strcmp (t[0], "maps")) { maps (); continue; }
 		if (!strcmp (t[0], "drain") && n == 2) { drain (t[1]); continue; }
+		if (!strcmp (t[0], "null") && n == 1) { null_guards (); continue; }
 		if (!strcmp (t[0], "crash") && n > 2) { crash_at = atoi (t[1]); op += 2; on -= 2; }
 		else if (!strcmp (t[0], "crashA") && n > 2) { crash_after = atoi (t[1]); op += 2; on -= 2; }
 		else if (!strcmp (t[0], "gated") && n > 1) { gated = 1; op += 1; on -= 1; }
 		else if (!strcmp (t[0], "eintr") && n > 2) {
 			for (char *p = strtok (t[1], ","); p && eintr_n < 32; p = strtok (NULL, ",")) eintr_script[eintr_n++] = atoi (p);
+			op += 2; on -= 2;
+		} else if (!strcmp (t[0], "fail") && n > 2) {
+			for (char *p = strtok (t[1], ","); p && fail_n < 8; p = strtok (NULL, ",")) {
+				char *c = strchr (p, ':');
+				if (!c) continue;
+				fail_idx[fail_n] = atoi (p); fail_err[fail_n] = errno_of (c + 1);
+				if (fail_err[fail_n]) ++fail_n;
+			}
 			op += 2; on -= 2;
 		}
 		do_op (op, on, res, sizeof res);
@@ -451,7 +505,7 @@ static int owner[NH];    /* server: which worker holds handle id h (-1: free); h
 
 /* position of the API op name in a worker command (after crash K / crashA K / eintr S prefixes) */
 static int op_pos (char **t, int n, int from) {
-	if (from < n && (!strcmp (t[from], "crash") || !strcmp (t[from], "crashA") || !strcmp (t[from], "eintr"))) return from + 2;
+	if (from < n && (!strcmp (t[from], "crash") || !strcmp (t[from], "crashA") || !strcmp (t[from], "eintr") || !strcmp (t[from], "fail"))) return from + 2;
 	return from;
 }
 
@@ -487,6 +541,7 @@ static void spawn (struct child *c) {
 		for (int i = 0; i < NW; ++i) if (W[i].pid > 0 && &W[i] != c) { close (W[i].cmd); close (W[i].resp); }
 		if (OBS.pid > 0 && &OBS != c) { close (OBS.cmd); close (OBS.resp); }
 		cmd_fd = a[0]; resp_fd = b[1];
+		{ int nul = open ("/dev/null", O_WRONLY); if (nul >= 0) { dup2 (nul, 1); close (nul); } }   /* P_ERROR / P_WARNING of the library go to stdout: not into the answer stream */
 		worker_loop ();
 	}
 	close (a[0]); close (b[1]);
@@ -497,6 +552,21 @@ static void reap (struct child *c, int kill_it) {
 	if (c->pid <= 0) return;
 	if (kill_it) kill (c->pid, SIGKILL);
 	close (c->cmd); close (c->resp);
+	waitpid (c->pid, NULL, 0);
+	c->pid = 0;
+}
+
+/* end of a run / reset: an idle child sees EOF on its command pipe and leaves through _exit (coverage builds flush their
+ * counters there); a child that does not leave within two seconds (it sleeps inside sem_wait) is killed */
+static void retire (struct child *c) {
+	if (c->pid <= 0) return;
+	close (c->cmd);
+	for (int i = 0; i < 400; ++i) {
+		if (waitpid (c->pid, NULL, WNOHANG) == c->pid) { close (c->resp); c->pid = 0; return; }
+		struct timespec ts = { 0, 5000000 }; nanosleep (&ts, NULL);
+	}
+	kill (c->pid, SIGKILL);
+	close (c->resp);
 	waitpid (c->pid, NULL, 0);
 	c->pid = 0;
 }
@@ -788,8 +858,8 @@ int main (int argc, char **argv) {
 		if (n == 0) continue;
 		if (!strcmp (t[0], "obs") && n == 1) obs ();
 		else if (!strcmp (t[0], "reset") && n == 1) {
-			for (int w = 0; w < NW; ++w) reap (&W[w], 1);
-			reap (&OBS, 1);
+			for (int w = 0; w < NW; ++w) retire (&W[w]);
+			retire (&OBS);
 			unlink_all ();
 			make_names ();
 			for (int w = 0; w < NW; ++w) spawn (&W[w]);
@@ -801,9 +871,17 @@ int main (int argc, char **argv) {
 			int w = atoi (t[0]);
 			if (t[0][0] < '0' || t[0][0] > '9' || w >= NW || n < 2) puts ("bad-op");
 			else if (!strcmp (t[1], "kill") && n == 2) { respawn (w); puts ("ok"); }
+			else if (!strcmp (t[1], "null") && n == 2) {
+				char trace[64] = "", res[LINE] = "";
+				send_cmd (&W[w], "null");
+				if (collect (&W[w], "", trace, sizeof trace, res, sizeof res) == 'R') printf ("%s => %s\n", trace, res);
+				else { puts (" => died"); respawn (w); }
+			}
 			else if (!op_allowed (t, n, 1, w)) puts ("bad-op");
 			else {
-				char cmd[LINE], trace[LINE * 2] = "", res[256] = "";
+				static char trace[LINE * 16];      /* 1000 EINTR tokens of ~30 bytes each must fit (thorough tier) */
+				char cmd[LINE], res[256] = "";
+				trace[0] = 0;
 				join_toks (cmd, sizeof cmd, t, 1, n);
 				send_cmd (&W[w], cmd);
 				int st = collect (&W[w], "", trace, sizeof trace, res, sizeof res);
@@ -818,8 +896,8 @@ int main (int argc, char **argv) {
 		}
 		fflush (stdout);
 	}
-	for (int w = 0; w < NW; ++w) reap (&W[w], 1);
-	reap (&OBS, 1);
+	for (int w = 0; w < NW; ++w) retire (&W[w]);
+	retire (&OBS);
 	unlink_all ();
 	p_libsys_shutdown ();
 	return 0;
